@@ -35,6 +35,7 @@ func init() {
 }
 
 func runC11(c *Ctx) {
+	runC11Extra(c)
 	// ---- window
 	if f := c.mustFn("service", "", "CheckTxTimestamp"); f != nil {
 		n := 0
@@ -326,4 +327,53 @@ func runC11(c *Ctx) {
 			}
 		}
 	}
+}
+
+// runC11Extra: rules added after independently produced mutants were missed.
+func runC11Extra(c *Ctx) {
+	const pk = "common/txlocator"
+	if fn := c.mustFn(pk, "tracker", "New"); fn != nil {
+		calls := c.calls(fn, byMethod("NewTracker"))
+		if len(calls) != 1 {
+			c.violate("C11.add-guards", "tracker.New detaches through NewTracker", fn.Pos(), "expected one NewTracker call")
+		} else {
+			c.requireAt("C11.add-guards", "a child is detached from its parent only if the parent holds no uncommitted ids", calls[0].Instr, wSame("parent's own ids committed", `^\$r\.locators$`, `^nil`))
+			c.requireAt("C11.add-guards", "a child is detached from its parent only if the parent has no uncommitted ancestors", calls[0].Instr, wSame("no ancestors", `^\$r\.parent$`, `^nil`))
+		}
+		okP := false
+		for _, fs := range fieldStores([]*ssa.Function{fn}, "tracker", "parent") {
+			okP = render(fs.Store.Val) == "$r"
+		}
+		c.check(okP, "C11.add-guards", "an attached child records its parent", fn.Pos(), "parent: t", "the new tracker does not link to its parent")
+	}
+	n := 0
+	for _, fn := range c.pkgFuncs(pk) {
+		for _, fs := range fieldStoresAny([]*ssa.Function{fn}, "cache") {
+			if fieldName(fs.Addr.X.Type(), fs.Addr.Field) != "maxTSInDB" {
+				continue
+			}
+			n++
+			c.requireAt("C11.interval-consistency", "maxTSInDB is raised only by a real (non-placeholder) list", fs.Store, wNE("list.ts ≠ 0", 0, t(1, `\.ts$`)))
+		}
+	}
+	if n == 0 {
+		// the field may live in another struct name: look it up by field name only
+		for _, fn := range c.pkgFuncs(pk) {
+			for _, b := range fn.Blocks {
+				for _, in := range b.Instrs {
+					st, ok := in.(*ssa.Store)
+					if !ok {
+						continue
+					}
+					fa, ok := st.Addr.(*ssa.FieldAddr)
+					if !ok || fieldName(fa.X.Type(), fa.Field) != "maxTSInDB" {
+						continue
+					}
+					n++
+					c.requireAt("C11.interval-consistency", "maxTSInDB is raised only by a real (non-placeholder) list", st, wNE("list.ts ≠ 0", 0, t(1, `\.ts$`)))
+				}
+			}
+		}
+	}
+	c.check(n >= 1, "C11.interval-consistency", "maxTSInDB writers found", token.NoPos, fmt.Sprint(n), "no store to maxTSInDB")
 }
